@@ -124,7 +124,15 @@ def generate(rng: random.Random, batch: dict) -> dict:
             # a starting state on or beyond the sanity bound
             s0[rng.randrange(sd)] = rng.choice(
                 [1e10, -1e10, 1.5e10, 9.999e9, -9.999e9])
-        legs.append({"s0": s0, "test": rng.random() < 0.4})
+        leg = {"s0": s0, "test": rng.random() < 0.4}
+        if rng.random() < 0.12 and all(abs(v) < 100 for v in s0):
+            # callers also pass starting states as integer or float32 arrays
+            if rng.random() < 0.5:
+                leg["s0"] = [float(rng.randint(-2, 2)) for _ in range(sd)]
+                leg["dtype"] = "int64"
+            else:
+                leg["dtype"] = "float32"
+        legs.append(leg)
     tsteps = rng.choice([10, 11, 20, 50, 100, 400])
     rsteps = rng.choice([10, 13, 30, 100, 250])
     ttime = rng.choice([0.5, 1.0, 2.0, 5.0, 10.0, 50.0, 1e-3, 1.0 / 3.0, 0.1])
@@ -382,10 +390,13 @@ def execute(doc: dict) -> dict:
             out[kidx % sd] = bad
             calls["fired"] += 1
 
-    test_starts = [np.array(leg["s0"], dtype=float) for leg in legs
-                   if leg["test"]]
-    train_starts = [np.array(leg["s0"], dtype=float) for leg in legs
-                    if not leg["test"]]
+    def start_of(leg):
+        dt = leg.get("dtype", "float64")
+        if dt != "float64":
+            core.bump(res["probes"], "start_state_dtype:" + dt)
+        return np.array(leg["s0"], dtype=float).astype(dt)
+    test_starts = [start_of(leg) for leg in legs if leg["test"]]
+    train_starts = [start_of(leg) for leg in legs if not leg["test"]]
     if len(legs) > 1:
         core.bump(res["probes"], "multi_leg")
     collected = []
